@@ -156,9 +156,9 @@ def main():
         cls64 = [(0, 9), (10, 99), (P(9), U32), (U32 + 1, P(10) - 1), (P(10), P(11) - 1), (P(19), 2**64 - 1)]
         cls32 = [(0, 9), (10, 99), (P(9), U32)]
     else:
-        cls64 = [(0, 9)] + [(P(k), P(k + 1) - 1) for k in range(1, 9)] + [(P(9), U32), (U32 + 1, P(10) - 1)] + \
-                [(P(k), P(k + 1) - 1) for k in range(10, 19)] + [(P(19), 2**64 - 1)]
-        cls32 = [(0, 9)] + [(P(k), P(k + 1) - 1) for k in range(1, 9)] + [(P(9), U32)]
+        # every second digit length (the full 1..20 sweep ran past the two-hour cap: 670 000 paths)
+        cls64 = [(0, 9), (10, 99), (P(4), P(5) - 1), (P(8), P(9) - 1), (P(9), U32), (U32 + 1, P(10) - 1), (P(10), P(11) - 1), (P(14), P(15) - 1), (P(18), P(19) - 1), (P(19), 2**64 - 1)]
+        cls32 = [(0, 9), (10, 99), (P(4), P(5) - 1), (P(8), P(9) - 1), (P(9), U32)]
     args = [(s, 'both', 'none', 9 if quick else 99, None) for s in sshapes]
     for s in sshapes:
         if quick and s[1] in ('alpha', 'beta'):
@@ -170,7 +170,7 @@ def main():
         keep = {(True, True, True), (False, False, False), (True, False, False), (False, True, False), (False, False, True)}
         pshapes = [p for p in pshapes if (p[1], p[3], p[4]) in keep and p[2] in (None, 'rc') and (p[0] in (1, 3) or p[5] is None)]
     pshapes += [(r, e, lab, po, de, l) for l in dup for (r, e, lab, po, de) in ((1, False, None, False, False), (3, True, 'rc', True, True))]
-    ck.bounds = dict(semver='canonical shape X.Y.Z[-[epoch.E.][alpha|beta|rc.N.][post.P.][dev.D]][+ids]: all 2x4x2x2 part combinations, numbers: either all in [0,99], or one designated number (each position in turn) ranging over digit-length classes of the u64 range (quick: 1, 2, 10 (split at 2^32), 11 and 20 digits; thorough: every length 1..20) with the others in [0,%d]' % small + ' (E>=1), build ids %s' % (builds + dup,),
+    ck.bounds = dict(semver='canonical shape X.Y.Z[-[epoch.E.][alpha|beta|rc.N.][post.P.][dev.D]][+ids]: all 2x4x2x2 part combinations, numbers: either all in [0,99], or one designated number (each position in turn) ranging over digit-length classes of the u64 range (quick: 1, 2, 10 (split at 2^32), 11 and 20 digits; thorough: lengths 1, 2, 5, 9, 10 (split at 2^32), 11, 15, 19, 20) with the others in [0,%d]' % small + ' (E>=1), build ids %s' % (builds + dup,),
                      pep440='release length 1..3, epoch/pre/post/dev each absent or present; numbers: all in [0,99] or one designated number any u32 with the others small, local %s' % (locs + dup,),
                      shapes=dict(semver=len(args), pep440=len(pshapes)))
     ck.outside = ['non-canonical SemVer (lossy by design)', 'more than 2 (thorough 3) build/local identifiers, string identifiers longer than 3',
@@ -208,7 +208,7 @@ def main():
         if quick and p[2] in ('alpha', 'beta'):
             continue
         pargs += [(p, b, small, r) for b in range(c07.count_numbers_pep(p)) for r in cls32]
-    ex2 = engine.explore('c07', 'path_pep', pargs, jobs=ck.jobs, deadline=deadline)
+    ex2 = engine.explore('c07', 'path_pep', pargs, jobs=ck.jobs, deadline=time.time() + (900 if quick else 5400))
     cands += [('pep', v) for v in ck.absorb('PEP 440 (<=3 release numbers) -> SemVer -> PEP 440 equal; SemVer rendering is a fixed point', ex2, bounds=dict(shapes=len(pshapes)), expect_tags=['converted'])]
     seen = set()
     for kind, v in cands:
